@@ -29,7 +29,7 @@ CanHold(T, S) ==    \* T, S = [b |-> base, p |-> precision, s |-> scale]
   \/ T.b \in Floats /\ (S.b \in SInts \cup UInts \/ IsDec(S.b))          \* lossy but conventional: numeric -> float
   \/ IsDec(T.b) /\ IsDec(S.b) /\ T.s >= S.s /\ (T.p - T.s) >= (S.p - S.s)
   \/ IsDec(T.b) /\ S.b \in SInts \cup UInts /\ (T.p - T.s) >= DigitsOf(S.b)
-  \/ T.b = "Utf8" /\ S.b = "Utf8"
+  \/ T.b = "Utf8" \/ S.b = "Utf8"        \* text converts implicitly in either direction (a dialect choice; failures are run-time errors)
 
 TypesEq(o) ==     \* o = [describe, schema, names, dnames, btypes, sbase, variants]
   /\ o.describe = o.schema /\ o.dnames = o.names
